@@ -67,7 +67,7 @@ __wrap_clock_gettime(clockid_t id, struct timespec *ts) {
 enum { K_U = 0, K_D, K_P };
 #define MAXA 3
 static struct sockaddr_storage addr_of[3];	/* one address per kind */
-static int lsn[3] = { -1, -1, -1 }, filler = -1;
+static int lsn[3] = { -1, -1, -1 }, filler = -1, p_available = 1;
 static const char kind_ch[3] = { 'U', 'D', 'P' };
 
 /* ---- attempts seen on the wire (wrapped connect) ---- */
@@ -115,7 +115,23 @@ net_setup(void) {
 	harness_connect = 1;
 	filler = socket(AF_INET, SOCK_STREAM | SOCK_NONBLOCK, 0);
 	connect(filler, (struct sockaddr *)&addr_of[K_P], sizeof(struct sockaddr_in));
-	p.fd = filler; p.events = POLLOUT; poll(&p, 1, 2000);
+	p.fd = filler; p.events = POLLOUT; poll(&p, 1, 10000);
+	/* self check of the environment: a further connection to P must stay in progress, one to D must be refused */
+	{
+		int c = socket(AF_INET, SOCK_STREAM | SOCK_NONBLOCK, 0), e = 0; socklen_t el = sizeof(e);
+		connect(c, (struct sockaddr *)&addr_of[K_P], sizeof(struct sockaddr_in));
+		p.fd = c; p.events = POLLOUT;
+		if (0 != poll(&p, 1, 300)) { p_available = 0; printf("NOTE\tthis kernel completes or refuses a connection to a listener with a full queue: never-answering addresses are left out\n"); }
+		__real_close(c);
+		c = socket(AF_INET, SOCK_STREAM | SOCK_NONBLOCK, 0);
+		connect(c, (struct sockaddr *)&addr_of[K_D], sizeof(struct sockaddr_in));
+		p.fd = c; p.events = POLLOUT;
+		if (1 != poll(&p, 1, 10000) || 0 != getsockopt(c, SOL_SOCKET, SO_ERROR, &e, &el) || ECONNREFUSED != e) {
+			printf("NOTE\tloop-back connection to a bound, not listening socket was not refused (SO_ERROR %d): the accept/connect harness cannot run here\n", e);
+			vh_fail("harness", "loop-back TCP does not behave as assumed");
+		}
+		__real_close(c);
+	}
 	harness_connect = 0;
 }
 
@@ -208,7 +224,7 @@ accept_cb(tp_task_p tptask, int error, uintptr_t skt, struct sockaddr_storage *a
 	if (n_accepted >= ncli) { cfail("connection-invented", "a connection was delivered that nobody made"); return (TP_TASK_CB_CONTINUE); }
 	if (NULL == addr || AF_INET != addr->ss_family) cfail("wrong-task-args", "no peer address");
 	p.fd = (int)skt; p.events = POLLIN;
-	if (1 != poll(&p, 1, 2000) || 1 != read((int)skt, &idx, 1))
+	if (1 != poll(&p, 1, 10000) || 1 != read((int)skt, &idx, 1))
 		cfail("connection-wrong", "the accepted descriptor %d is not a connection of a client", (int)skt);
 	else if (idx != (uint8_t)n_accepted)
 		cfail("connection-order", "connection %d delivered as number %d", idx, n_accepted);
@@ -316,7 +332,7 @@ one_client(void) {
 	connect(cli[ncli], (struct sockaddr *)&addr_of[K_U], sizeof(struct sockaddr_in));
 	harness_connect = 0;
 	p.fd = cli[ncli]; p.events = POLLOUT;
-	if (1 != poll(&p, 1, 2000)) { vh_fail("harness", "client connect did not complete"); case_failed = 1; return; }
+	if (1 != poll(&p, 1, 10000)) { vh_fail("harness", "client connect did not complete"); case_failed = 1; return; }
 	idx = (uint8_t)ncli;
 	if (1 != write(cli[ncli], &idx, 1)) { vh_fail("harness", "client write"); case_failed = 1; }
 	ncli ++;
@@ -369,7 +385,7 @@ __wrap_epoll_wait(int epfd, struct epoll_event *ev, int maxev, int timeout) {
 			if (att_fd >= 0 && !att_polled && natt > 0 && K_P != att_kind[(natt - 1) % MAXATT]) {
 				/* an attempt towards U or D is on the wire: its outcome belongs to this step */
 				struct pollfd p; p.fd = att_fd; p.events = POLLOUT;
-				poll(&p, 1, 2000); att_polled = 1;
+				poll(&p, 1, 10000); att_polled = 1;
 				continue;
 			}
 			settle_left = 0;
@@ -418,7 +434,7 @@ run_case(void) {
 		harness_connect = 1;
 		connect(conn_fd, (struct sockaddr *)&addr_of[C.kind], sizeof(struct sockaddr_in));
 		harness_connect = 0;
-		if (K_P != C.kind) { p.fd = conn_fd; p.events = POLLOUT; poll(&p, 1, 2000); }	/* the outcome is there before the task starts */
+		if (K_P != C.kind) { p.fd = conn_fd; p.events = POLLOUT; poll(&p, 1, 10000); }	/* the outcome is there before the task starts */
 		rc = tp_task_connect_create(t0, (uintptr_t)conn_fd, 0, C.timeout ? TIMEOUT_MS : 0, connect_cb, NULL, &task);
 		break;
 	case M_CONNECT_EX:
@@ -530,6 +546,7 @@ gen_connect_ex(void) {
 		for (code = 0; code < ncodes; code ++) {
 			int c = code, has_p = 0;
 			for (i = 0; i < C.na; i ++) { C.kinds[i] = c % 3; c /= 3; if (K_P == C.kinds[i]) has_p = 1; }
+			if (has_p && !p_available) continue;
 			for (C.timeout = 0; C.timeout < 2; C.timeout ++)
 			for (C.max_tries = 0; C.max_tries <= 2; C.max_tries ++)
 			for (C.rr = 0; C.rr < 2; C.rr ++)
@@ -570,6 +587,7 @@ main(int argc, char **argv) {
 	}
 	C.mode = M_CONNECT; C.policy = 0;
 	for (C.kind = 0; C.kind < 3; C.kind ++) for (C.timeout = 0; C.timeout < 2; C.timeout ++) for (C.nosettle = 0; C.nosettle < 2; C.nosettle ++) {
+		if (K_P == C.kind && !p_available) continue;
 		C.nh = 0; gen_hist(con_ops, con_ks, 2, 0, 4);
 	}
 	C.nosettle = 0; C.kind = 0;
